@@ -163,8 +163,13 @@ def c01(tier):
     tiny = dict(keys="KTiny", look="LTiny", vals="VShort2", maxlive=3, features="FDirect", invariants=inv,
                 view="ViewHist", emit="EmitC01")
     return generic("C01", tier,
-                   [dict(invariants=inv, level=5, emit="EmitC01"), dict(tiny, level=6)],
+                   [dict(invariants=inv, level=5, emit="EmitC01"), dict(tiny, level=6),
+                    # two keys whose leaves are one and the same node (one database entry), batches
+                    dict(invariants=inv, level=6, keys="KTwin", look="LTwin", vals="VShare", maxbatch=3,
+                         emit="EmitC01")],
                    [dict(invariants=inv, level=6, emit="EmitC01"), dict(tiny, level=7),
+                    dict(invariants=inv, level=7, keys="KTwin", look="LTwin", vals="VShare", maxbatch=3,
+                         emit="EmitC01"),
                     dict(keys="KFull", look="LFull", vals="VFull", maxlive=3, features="FDirect",
                          invariants=inv, level=4, emit="EmitC01"),
                     dict(keys="KOne", look="LOne", vals="VShare", maxlive=1, maxbatch=2, invariants=inv,
@@ -181,7 +186,9 @@ def c02(tier):
               emit="EmitC01")
     return generic("C02", tier,
                    [dict(invariants=inv, properties=pr, level=5, emit="EmitC01"),
-                    dict(th, vals="VThreshA", features="FDirect", level=4)],
+                    dict(th, vals="VThreshA", features="FDirect", level=4),
+                    # the root after a write that raises (in a direct call, in the commit of a batch)
+                    dict(invariants=inv, level=5, features="FBatchFail", prune="OnlyNoPrune", emit="EmitC01")],
                    [dict(invariants=inv, properties=pr, level=6, emit="EmitC01"),
                     dict(keys="KTiny", look="LTiny", vals="VShort2", maxlive=3, features="FDirect", invariants=inv,
                          view="ViewHist", emit="EmitC01", level=7),
@@ -206,7 +213,7 @@ def c04(tier):
     return generic("C04", tier,
                    [dict(base, level=4, view="ViewFull")],
                    [dict(base, level=5, view="ViewFull"),
-                    dict(base, level=5, view="ViewLight", invariants=["Readable"], vals="VFull")],
+                    dict(base, level=4, view="ViewLight", invariants=["Readable"], vals="VFull")],
                    opts=("past",), modes=("second", "batch"), ntr=(80, 1000), prune=False,
                    sim=dict(base, features="FHistNoop", view="ViewFull", maxlive=4))
 
@@ -238,7 +245,7 @@ def c06(tier):
     return generic("C06", tier,
                    [dict(one, level=9), dict(base, level=5, features="FBatchNoop"),
                     dict(base, level=5, keys="KShare", look="LShare", vals="VShare", features="FDirect")],
-                   [dict(one, level=11), dict(base, level=6, features="FBatchNoop"),
+                   [dict(one, level=10), dict(base, level=6, features="FBatchNoop"),
                     dict(base, level=5, keys="KFull", look="LFull", vals="VFull", maxlive=3, features="FDirect"),
                     dict(base, level=6, keys="KShare", look="LShare", vals="VShare", maxlive=4, features="FDirect")],
                    modes=("plain", "batch"), ntr=(100, 1500), prune=True,
